@@ -339,6 +339,16 @@ pub fn classics() -> Vec<(String, Prog)> {
             out.push((format!("relay+f+f[{},{}]", f1.s(), f2.s()), Prog { nlocs: 3, pre: vec![], threads: vec![vec![], vec![st(0, 1, Rlx), st(1, 2, Rel)], vec![ld(1, Rlx), f(f1), st(2, 3, Rlx)], vec![ld(2, Rlx), f(f2), ld(0, Rlx)]] }));
         }
     }
+    // what a SeqCst fence learns from an earlier SeqCst fence is part of what it releases: W;Fsc;R ‖ W;F;W ‖ R;R with the
+    // third thread acquiring from the store after the second fence (by load, by fence, or through a join of main)
+    for &f1 in &FENCE_ORDS {
+        for &f2 in &FENCE_ORDS {
+            for &lo in &LOAD_ORDS {
+                out.push((format!("W;f;R|W;f;W|RR[{},{},{}]", f1.s(), f2.s(), lo.s()), Prog { nlocs: 3, pre: vec![], threads: vec![vec![], vec![st(0, 1, Rlx), f(f1), ld(1, Rlx)], vec![st(1, 1, Rlx), f(f2), st(2, 1, Rlx)], vec![ld(2, lo), ld(0, Rlx)]] }));
+            }
+            out.push((format!("W;f;R|W;f;W|R;f;R[{},{}]", f1.s(), f2.s()), Prog { nlocs: 3, pre: vec![], threads: vec![vec![], vec![st(0, 1, Rlx), f(f1), ld(1, Rlx)], vec![st(1, 1, Rlx), f(f2), st(2, 1, Rlx)], vec![ld(2, Rlx), f(Acq), ld(0, Rlx)]] }));
+        }
+    }
     // release sequence continued by an RMW of another thread, in every RMW ordering, swap and fetch_add
     for &ro in &RMW_ORDS {
         for &lo in &LOAD_ORDS {
